@@ -67,7 +67,8 @@ def run(ctx):
     ok = check_theorems(ctx, ['Generated/ResetConsts.v', 'Reset/BuilderState.v', 'Reset/ResetProofs.v', 'Properties/Properties_C14.v'])
     if not ok:
         ctx.broken_obligation('Properties_C14.vo', getattr(ctx, 'broken', {}))
-    exe = build_harness(ctx)
+    EP_DEFS = ['-DFLATCC_EMITTER_ALLOC=ep_alloc', '-DFLATCC_EMITTER_FREE=ep_free', '-include', os.path.join(lib.ROOT, 'harness', 'ep_alloc.h')]
+    exe = build_harness(ctx, extra_defs=EP_DEFS)
     H = lib.Harness(exe, env={'ASAN_OPTIONS': 'detect_leaks=1:abort_on_error=0:allocator_may_return_null=1'})
 
     if ctx.replay_in:
@@ -237,7 +238,23 @@ def run(ctx):
     add_fp('failed_json_union_vector', ['jp:%s:0' % hx(docs[3].encode()[:len(docs[3]) * 3 // 4])], False)
     add_fp('failed_json_deep', ['jp:%s:0' % hx(docs[7].encode()[:len(docs[7]) - 12])], False, 'rs:0:1')
     add_fp('completed_json', ['jp:%s:0' % hx(docs[5].encode())], False)
-    add_fp('big_then_small', refs[-1][1].ops, True, n=max(40, iters // 8))
+    # the emitter's pool must trim: one build of several pages, then many small builds (the usage average decays below half the capacity)
+    def add_pool(klass, big_bytes, small_ops, n, reset_tok='rs:0:0', cfg='0:0'):
+        s = Script(); marks = {}
+        s.extend(Script(['sb:0:0:0', 'st:1', 'cv:%s:%d:1:1:4294967295' % ('5a' * big_bytes, big_bytes), 'to:0:$2', 'et', 'eb:$4'])); s.emit(reset_tok); s.emit('snap')
+        for it in range(n):
+            s.extend(Script(small_ops)); s.emit(reset_tok); s.emit('snap')
+        s.emit('clr'); s.emit('snap')
+        # the extracted model recurses over the byte lists (OCaml stack): above 150 kB the implementation is checked alone
+        c = Case('footprint:' + klass, s.ops, big_bytes <= 150000, cfg, {'n': n, 'pool': True})
+        cases.append(c); pool_cases.append(c)
+    pool_cases = []
+    add_pool('pool_trim_20k', 20000, refs[0][1].ops, 40)
+    add_pool('pool_trim_60k_reduce', 60000, refs[-1][1].ops, 40, 'rs:0:1')
+    add_pool('pool_trim_9k_custom_emitter', 9000, refs[0][1].ops, 30, 'rs:1:0', cfg='1:1')
+    if ctx.thorough:
+        for kb in (3, 6, 12, 100, 300):
+            add_pool('pool_trim_%dk' % kb, kb * 1000, refs[kb % len(refs)][1].ops, 60, RESET_VARIANTS[kb % 4])
     # random mixture
     gm = Gen(random.Random(ctx.seed * 7 + 1), max_depth=4)
     mix = Script()
@@ -254,7 +271,12 @@ def run(ctx):
     ires = lib.run_harness_resilient(H, [c.impl_line() for c in cases], timeout=1200)
     mcases = [c for c in cases if c.model]
     mres = ctx.run_model('reset', [c.model_line(True) for c in mcases], timeout=1200)
-    for c, r in zip(cases, ires): c.impl = r
+    def strip_eplive(c, r):
+        m = re.search(r'\s*EPLIVE=(-?\d+)\s*$', r)
+        if m:
+            c.meta['eplive'] = int(m.group(1)); r = r[:m.start()]
+        return r
+    for c, r in zip(cases, ires): c.impl = strip_eplive(c, r)
     for c, r in zip(mcases, mres): c.mod = r
     ctx.sample({'history': cases[0].impl_line()[:300], 'impl': (cases[0].impl or '')[:200], 'model': (cases[0].mod or '')[:200]})
 
@@ -404,6 +426,7 @@ def run(ctx):
     ir = lib.run_harness_resilient(H, [c.impl_line() for c in nvt_cases])
     mr = ctx.run_model('reset', [c.model_line(True) for c in nvt_cases])
     for c, a, m in zip(nvt_cases, ir, mr):
+        a = strip_eplive(c, a)
         ctx.count(c.impl_line(), klass='vtable_once')
         if a.startswith('CRASH') or 'CRASH' in a:
             c.impl = a
@@ -419,6 +442,44 @@ def run(ctx):
         if ta[-1] != tm[-1]:
             ctx.violation('corr:emit-stream', 'emit stream of the implementation differs from the model: impl %s model %s' % (ta[-1][:120], tm[-1][:120]),
                           {'harness_line': c.impl_line(), 'model_line': c.model_line(True)})
+
+    # ---------------------------------------------------------------- property: the emitter's pages (counted at FLATCC_EMITTER_ALLOC / FREE)
+    PAGE = consts['PAGE_SIZE']
+    for c in cases:
+        if 'CRASH' in c.impl: continue
+        toks = c.impl.split()
+        for j, t in enumerate(toks):
+            if not t.startswith('{'): continue
+            d = parse_snap(t)
+            if 'e_live' not in d or int(d['e_live']) < 0: continue
+            live, err = divmod(int(d['e_live']), 1000)
+            after_clr = j > 0 and j - 1 < len(c.ops) and c.ops[j - 1] == 'clr'
+            if err or live * PAGE != int(d['e_cap']) or (after_clr and live != 0):
+                ctx.violation('emitter-pages-leak', '%s: %d emitter pages are live (%d bytes) while the emitter accounts for a capacity of %s bytes%s' % (
+                                  c.klass, live, live * PAGE, d['e_cap'], ' after flatcc_builder_clear' if after_clr else ''),
+                              {'harness_line': c.impl_line()[:20000], 'snapshot_index': j, 'live_pages': live, 'e_cap': d['e_cap']})
+                break
+        if c.meta.get('eplive', 0) != 0:
+            ctx.violation('emitter-pages-leak', '%s: %d emitter pages still live after clearing builder and emitter at the end of the history' % (c.klass, c.meta['eplive'] // 1000),
+                          {'harness_line': c.impl_line()[:20000]})
+    # the pool trims as the model (emitter_pool_bounded: after reset at most one page or twice the decayed average) predicts: live pages
+    # must come down from the peak and end at one page
+    for c in pool_cases:
+        if 'CRASH' in c.impl: continue
+        snaps = [parse_snap(t) for t in c.impl.split() if t.startswith('{')]
+        if len(snaps) < 4: continue
+        lives = [int(x['e_live']) // 1000 for x in snaps[:-1]]
+        caps_ = [int(x['e_cap']) for x in snaps[:-1]]
+        ctx.sample({'pool_case': c.klass, 'live_pages_after_each_reset': lives[:6] + ['...'] + lives[-3:]}, limit=16)
+        for k, x in enumerate(snaps[:-1]):
+            bound = max(PAGE, 2 * int(x['e_avg']))
+            if int(x['e_cap']) > bound + PAGE or lives[k] * PAGE > bound + PAGE:
+                ctx.violation('emitter-pool-unbounded', '%s: after reset %d the pool holds %d live pages / capacity %s, above max(page, 2 * average %s) + one page' % (
+                                  c.klass, k, lives[k], x['e_cap'], x['e_avg']), {'harness_line': c.impl_line()[:20000]})
+                break
+        if lives[-1] != 1 or lives[0] <= 1:
+            ctx.violation('emitter-pool-not-trimmed', '%s: live pages after each reset %s: expected several after the large build and one at the end' % (c.klass, lives),
+                          {'harness_line': c.impl_line()[:20000]})
 
     # ---------------------------------------------------------------- property: footprint flat after warm-up
     for c in fp_cases:
